@@ -16,7 +16,7 @@ import (
 
 func TestMain(m *testing.M) {
 	document.SetGlobalLevel(document.LogLevelSilent)
-	kit.TestMain(m, 1600, 14000)
+	kit.TestMain(m, 1200, 8000)
 }
 
 // Case is one generated input: a description of a package (plain data) that Build() turns into bytes.
@@ -87,13 +87,13 @@ func run(c Case) *kit.Result {
 	if in.Zip {
 		res.Label("input:zip")
 	}
-	if len(in.Tables) > 0 {
+	if in.NTables > 0 {
 		res.Label("input:tables")
 	}
-	if in.anyTable(func(t tblInfo) bool { return !t.HasGrid }) {
+	if in.AnyNoGrid {
 		res.Label("input:table-without-grid")
 	}
-	if in.anyTable(func(t tblInfo) bool { return t.ragged() }) {
+	if in.AnyRagged {
 		res.Label("input:ragged-table")
 	}
 	if in.HasMain && in.MainClean {
